@@ -1,6 +1,7 @@
 from common import COMMON_ASSUME
 
 PROP = dict(
+    technique='property-based testing: signed-arithmetic reference model on exact-size slots',
     harness=['c12_add.c', 'vf_ref.c'],
     level_text=('generated-input search against an arithmetic model: '
                 'varintTaggedAddNoGrow/Grow and varintExternalAddNoGrow/Grow '
